@@ -33,7 +33,9 @@ def processCase (cfg : ParseCfg) (c : Case) : Array String := Id.run do
   for o in c.ops do
     let h := o.h
     let st := getH hs h
-    if !(o.get "nohandle").isEmpty then
+    if o.obs.isEmpty then
+      out := out.s cid s!"op {o.n} no observation"
+    else if !(o.get "nohandle").isEmpty then
       out := out.s cid s!"op {o.n} nohandle"
     else
     match o.cmd with
